@@ -44,7 +44,8 @@ def make(shape: Dict[str, Any]) -> Any:
     known_keys: List[Tuple[str, str]] = shape.get('known', [])  # (service key, record kind)
 
     def fn(ctx: Any) -> None:
-        loop = env.begin(ctx, 1_000_000)
+        loop = env.begin(ctx, 1_000_000, fixed_rand=True)
+        env.use_token_packets(True)
         zc = env.make_zc(loop)
         cat, ttl = catalogue(ctx)  # type: ignore[misc]
         live: Dict[str, Svc] = {}  # lower-cased instance name -> description (the reference registry)
@@ -134,6 +135,20 @@ def make(shape: Dict[str, Any]) -> Any:
                 w = want_adds.get(ident(a))
                 if w is not None:
                     ctx.check(a.ttl == w[1], f'additional {ident(a)[:3]} does not carry the configured TTL')
+        # ---- the same query through the real listener: its "is anything registered" gate, dispatch, queues and transmission
+        import zeroconf._listener as lst
+
+        msg2 = mk_query(loop.now_ms, questions, known_recs, data=b'again')
+        saved_inc = lst.DNSIncoming
+        lst.DNSIncoming = lambda data, source=None, scope_id=None, now=None: msg2  # type: ignore[misc,assignment]
+        try:
+            zc.engine.protocols[0].datagram_received(b'again', ('10.0.0.9', 5353))
+        finally:
+            lst.DNSIncoming = saved_inc  # type: ignore[misc]
+        loop.advance_by(2000)
+        ctx.check(not loop.callback_exceptions, f'exception in a timer callback: {loop.callback_exceptions[:1]}')
+        sent_idents = sorted({ident(r) for s in env.sent_log(zc) for r, _ in s.out.answers})
+        ctx.check(sent_idents == sorted(expected), f'the listener transmitted answers {[g[:3] for g in sent_idents]} for a query whose answers are {[e[:3] for e in sorted(expected)]}')
         if got:
             out = construct_outgoing_multicast_answers(got)
             ans = [r for r, _ in out.answers]
@@ -221,7 +236,7 @@ META = {
     'other_ttl of every service (1..2^31-1) and every known-answer TTL (0..2^32-1) are z3 integers. Answers, per-answer additionals, '
     'TTLs, flush marking and the built reply are compared with a declarative reference responder.',
     'functions': [
-        'zeroconf._handlers.query_handler.QueryHandler.async_response/_get_answer_strategies/_answer_question/_add_pointer_answers/'
+        'zeroconf._listener.AsyncListener.datagram_received (registry gate) / handle_query_or_defer', 'QueryHandler.handle_assembled_query', 'zeroconf._handlers.query_handler.QueryHandler.async_response/_get_answer_strategies/_answer_question/_add_pointer_answers/'
         '_add_address_answers/_add_service_type_enumeration_query_answers', 'query_handler._QueryResponse.*',
         'zeroconf._services.registry.ServiceRegistry.*', 'zeroconf._services.info.ServiceInfo._dns_* / _get_address_and_nsec_records',
         'zeroconf._dns.DNSRRSet.suppresses', 'zeroconf._handlers.answers.construct_outgoing_multicast_answers/_add_answers_additionals',
